@@ -6,8 +6,11 @@ pub fn scenario_by_name(name: &str) -> Option<Box<dyn Scenario>> {
         "tx-history" | "C04" => Some(Box::new(crate::scen_txhist::TxHistory)),
         "interp-driver" | "C16" => Some(Box::new(crate::scen_interp::InterpDriver)),
         "artefact-medium" | "C09" => Some(Box::new(crate::scen_artefact::ArtefactMedium)),
+        "digest-stream" | "C13" => Some(Box::new(crate::scen_digest::DigestStream)),
+        "ecies-net" | "C11" => Some(Box::new(crate::scen_ecies::EciesNet)),
+        "ecdsa-net" | "C05" => Some(Box::new(crate::scen_ecdsa::EcdsaNet)),
         _ => None,
     }
 }
 
-pub const ALL: &[(&str, &str)] = &[("C04", "tx-history"), ("C16", "interp-driver"), ("C09", "artefact-medium")];
+pub const ALL: &[(&str, &str)] = &[("C04", "tx-history"), ("C16", "interp-driver"), ("C09", "artefact-medium"), ("C13", "digest-stream"), ("C11", "ecies-net"), ("C05", "ecdsa-net")];
